@@ -23,8 +23,10 @@ impl Drop for Solver {
 impl Solver {
     pub fn spawn() -> Solver {
         let bin = std::env::var("SYMRT_CVC5").unwrap_or_else(|_| "cvc5".into());
+        let extra: Vec<String> = std::env::var("SYMRT_CVC5_ARGS").map(|v| v.split_whitespace().map(|x| x.to_string()).collect()).unwrap_or_default();
         let mut child = Command::new(bin)
             .args(["--incremental", "--lang", "smt2", "--produce-models", "--tlimit-per=2500"])
+            .args(&extra)
             .stdin(Stdio::piped())
             .stdout(Stdio::piped())
             .stderr(Stdio::null())
@@ -164,7 +166,7 @@ impl Solver {
 pub fn z3_oneshot(script: &str) -> Option<bool> {
     let bin = std::env::var("SYMRT_Z3").unwrap_or_else(|_| "/usr/bin/z3".into());
     let mut child = Command::new(bin)
-        .args(["-in", "-T:30"])
+        .args(["-in", "-T:10"])
         .stdin(Stdio::piped())
         .stdout(Stdio::piped())
         .stderr(Stdio::null())
@@ -204,7 +206,8 @@ pub fn oneshot_robust(script_decls_asserts: &str, vars: &[(String, u32)], want_m
         let _ = std::fs::write(format!("{}/fb_{}_{}.smt2", dir, std::process::id(), n), &script);
     }
     let attempts: Vec<(String, Vec<&str>)> = vec![
-        ("z3-new".into(), vec!["-in", "-T:20"]),
+        ("z3-new".into(), vec!["-in", "-T:10"]),
+        (std::env::var("SYMRT_CVC5").unwrap_or_else(|_| "cvc5".into()), vec!["--lang", "smt2", "--tlimit=20000", "--solve-bv-as-int=sum"]),
         (std::env::var("SYMRT_CVC5").unwrap_or_else(|_| "cvc5".into()), vec!["--lang", "smt2", "--tlimit=30000"]),
         (std::env::var("SYMRT_Z3").unwrap_or_else(|_| "/usr/bin/z3".into()), vec!["-in", "-T:60"]),
         ("z3-new".into(), vec!["-in", "-T:240"]),
